@@ -98,6 +98,15 @@ Theorem C03_overwrite_replaces : forall meta enc s dl c d u,
   /\ Inv meta enc (fst r) (AFile (new_file dl c d u) None).
 Proof. exact overwrite_replaces. Qed.
 
+(* On a file that exists, header= and delim= given with an append, with a later write through
+   the open object, or with a reopen are ignored. *)
+Theorem C03_append_ignores_keywords : forall meta enc s af o c dl dl' d d' u u',
+  Inv meta enc s (AFile af o) -> total af + nrows c < 10 ^ 20 -> chunk_ok c ->
+  step meta enc s (FnWrite true dl c d u) = step meta enc s (FnWrite true dl' c d' u')
+  /\ step meta enc s (Reopen dl) = step meta enc s (Reopen dl')
+  /\ (forall m, o = Some m -> step meta enc s (WriteAgain c d u) = step meta enc s (WriteAgain c d' u')).
+Proof. exact append_ignores_keywords. Qed.
+
 (* The code AS FOUND (before fixes/C03) did not have the last two properties: *)
 (* sfile.write(f, c, append=True) on a missing path raised and created nothing; *)
 Theorem C03_asfound_append_missing_refuted :
